@@ -22,6 +22,7 @@ H9 == [sys_up_time |-> B4(1), unix_secs |-> B4(5), seq |-> B4(9), source_id |-> 
 HX == [export_time |-> B4(1), seq |-> B4(5), domain |-> B4(9)]
 FA == << Spec9(1, 4), Spec9(8, 4) >>
 FB == << Spec9(7, 2) >>
+FC == << Spec9(12, 4), Spec9(7, 2) >>          \* as many fields as FA, different types and sizes
 T(id, fs) == [id |-> id, count |-> Len(fs), fields |-> fs]
 OT9(id) == [id |-> id, scope_len |-> 4, opt_len |-> 4, scope |-> <<Spec9(1, 2)>>, opts |-> <<Spec9(2, 2)>>]
 OTX(id) == [id |-> id, count |-> 2, scope_count |-> 1, fields |-> <<Spec9(5, 1), Spec9(6, 1)>>]
@@ -36,6 +37,8 @@ V(n) == [t |-> "ver", ver |-> n]       \* start of a packet of version n
 Items ==
  << [b |-> EncV9Hdr(1, H9) \o EncV9TmplSet(<<T(256, FA)>>, <<>>),              toks |-> <<V(9), Def("v9", "data", T(256, FA))>>],
     [b |-> EncV9Hdr(1, H9) \o EncV9TmplSet(<<T(256, FB)>>, <<0, 0>>),          toks |-> <<V(9), Def("v9", "data", T(256, FB))>>],
+    [b |-> EncV9Hdr(1, H9) \o EncV9TmplSet(<<T(256, FC)>>, <<>>),              toks |-> <<V(9), Def("v9", "data", T(256, FC))>>],
+    [b |-> EncIpfixMsg(HX, <<EncIpfixTmplSet(<<T(256, FC)>>, <<>>)>>),         toks |-> <<V(10), Def("ipfix", "data", T(256, FC))>>],
     [b |-> EncV9Hdr(1, H9) \o EncV9TmplSet(<<T(256, FA), T(257, FB)>>, <<>>),  toks |-> <<V(9), Def("v9", "data", T(256, FA)), Def("v9", "data", T(257, FB))>>],
     [b |-> EncV9Hdr(1, H9) \o EncV9OtmplSet(<<OT9(256)>>, <<>>),               toks |-> <<V(9), Def("v9", "opts", OT9(256))>>],
     [b |-> EncV9Hdr(2, H9) \o EncV9TmplSet(<<T(257, FA)>>, <<>>) \o EncSet(257, Body8),
@@ -62,7 +65,7 @@ Items ==
 NI == Len(Items)
 
 Singles == {<<i>> : i \in 1..NI}
-Pairs   == IF Depth2 THEN {<<i, j>> : i \in {1, 5, 6, 7, 9, 14, 15, 16, 18}, j \in {1, 2, 6, 9, 10, 15}} ELSE {}
+Pairs   == IF Depth2 THEN {<<i, j>> : i \in {1, 3, 7, 8, 9, 11, 16, 17, 18, 20}, j \in {1, 2, 3, 8, 11, 12, 17}} ELSE {}
 Scripts == Singles \cup Pairs
 BytesOf(sc) == Flatten([i \in 1..Len(sc) |-> Items[sc[i]].b])
 ToksOf(sc)  == Flatten([i \in 1..Len(sc) |-> Items[sc[i]].toks])
